@@ -141,7 +141,8 @@ fn cli_program(ls: &[L]) -> Option<String> {
     let nm = |i: u8| if i == 1 { "'a'" } else { "'b'" };
     let vis: Vec<&str> = want.iter().filter(|(_, v)| *v).map(|(i, _)| nm(*i)).collect();
     let all: Vec<&str> = want.iter().map(|(i, _)| nm(*i)).collect();
-    Some(format!("local o = {}; std.assertEqual([std.objectFields(o), std.objectFieldsAll(o)], [[{}], [{}]])", e, vis.join(", "), all.join(", ")))
+    let has = |i: u8| -> (bool, bool) { (want.iter().any(|(j, v)| *j == i && *v), want.iter().any(|(j, _)| *j == i)) };
+    Some(format!("local o = {}; std.assertEqual([std.objectFields(o), std.objectFieldsAll(o), std.objectHas(o, 'a'), std.objectHasAll(o, 'a'), 'a' in o, std.objectHas(o, 'b'), std.objectHasAll(o, 'b'), 'b' in o], [[{}], [{}], {}, {}, {}, {}, {}, {}])", e, vis.join(", "), all.join(", "), has(1).0, has(1).1, has(1).1, has(2).0, has(2).1, has(2).1))
 }
 struct Tally { cases: u64, failures: u64, first: Option<String>, cli: Option<String> }
 impl Tally {
@@ -193,20 +194,27 @@ pub fn run() {
         for_each_object(n, &mut |ls| {
             let o = &object(ls);
             let want = spec_fields(ls);
+            let failures_before = t.failures;
             // a panic of the real code on a reachable object is a failure with this object as the witness
             let got = match std::panic::catch_unwind(std::panic::AssertUnwindSafe(|| { let g = real_fields(o); (g, [o.has_field(0, NAME), o.has_field(0, OTHER)], [o.has_visible_field(NAME), o.has_visible_field(OTHER)]) })) {
                 Ok((g, _, _)) => g,
                 Err(_) => { t.check(false, "C07:objnative:no-panic-on-a-reachable-object", || show(ls)); if t.cli.is_none() { t.cli = cli_program(ls); } return; }
             };
             t.check(got == want, "C07:objnative:field-list-is-the-visibility-rule-over-the-effective-definitions", || format!("{} got {:?} want {:?} (name id, visible)", show(ls), got, want));
-            if got != want && t.cli.is_none() { t.cli = cli_program(ls); }
             for (nm, id) in [(NAME, 1u8), (OTHER, 2u8)] {
                 let listed = got.iter().find(|(i, _)| *i == id);
                 t.check(listed.is_some() == o.has_field(0, nm), "C07:objnative:field-list-and-has-field-agree-on-which-fields-exist", || format!("{} name {}", show(ls), id));
                 t.check(listed.map(|(_, v)| *v).unwrap_or(false) == o.has_visible_field(nm), "C07:objnative:field-list-and-has-visible-field-agree", || format!("{} name {}", show(ls), id));
             }
+            // lookups that start below the top (what `super.f` / `e in super` from a field of layer from-1 perform)
+            let ea: Vec<E> = ls.iter().map(|l| l.a).collect();
+            for from in 0..ls.len() {
+                let gotl = o.find_field(from, NAME).map(|(i, _)| i);
+                t.check(gotl == spec_lookup(&ea, from) && o.has_field(from, NAME) == gotl.is_some(), "C07:objnative:lookup-from-a-layer-finds-the-first-effective-definition-at-or-below-it", || format!("{} name a from layer {} got {:?} want {:?}", show(ls), from, gotl, spec_lookup(&ea, from)));
+            }
             // the cached list is returned unchanged by a second call
             t.check(real_fields(o) == got, "C07:objnative:field-list-is-stable", || show(ls));
+            if t.failures > failures_before && t.cli.is_none() { t.cli = cli_program(ls); }
         });
     }
 
